@@ -12,7 +12,7 @@ from harness import containers as C
 from pyasn1.type import univ, char, useful
 from pyasn1 import error
 
-IMPORTS = 'Base.Bytes Model.Tag Model.Container'
+IMPORTS = 'Base.Bytes Model.Tag Model.Container Spec.ListSpec'
 
 # open findings this check can meet, decided by the class predicates in containers.py (finding_class)
 FINDINGS = ('F18a', 'F18d', 'F18h', 'F18i')
@@ -48,7 +48,7 @@ def fixed_cases(ctx, kinds):
         if 'history' not in w or w.get('kind') not in kinds:
             continue
         kind, ops = kinds[w['kind']], [detuple(o) for o in w['history']]
-        trace, failures, upto = C.run_history(kind, ops)
+        trace, failures, upto, _ = C.run_history(kind, ops)
         ctx.case(('witness', fid), True)
         ctx.stats['finding witnesses replayed'] += 1
         hit = [x for x in failures if x.finding == fid]
@@ -60,7 +60,7 @@ def fixed_cases(ctx, kinds):
         exprs.append(kind.coq_check(ops[:upto], trace[:upto])); meta.append((kind, ops[:upto], trace[:upto]))
     for fid, kname, ops in REGRESSIONS:
         kind = kinds[kname]
-        trace, failures, upto = C.run_history(kind, ops)
+        trace, failures, upto, _ = C.run_history(kind, ops)
         ctx.case(('regression', fid, kname, repr(ops)), True)
         ctx.stats['repaired-defect histories replayed'] += 1
         for x in failures:
@@ -153,7 +153,7 @@ def scalar_battery(ctx):
 def run(ctx):
     kinds = C.standard_kinds()
     quick = ctx.tier != 'thorough'
-    per_kind = ctx.n(40, 60)
+    per_kind = ctx.n(40, 200)
     maxlen = 40 if quick else 400
     ctx.rule = ('random operation histories (length 5..%d; every 4th history "wild": arguments also from the classes of the '
                 'recorded findings F18a/d/i) over SequenceOf(Integer), SetOf(Integer), SequenceOf(), a 4-component Sequence '
@@ -161,13 +161,17 @@ def run(ctx):
                 'vs the Coq model, outcome/content/len/isValue vs a plain list/dict/option prototype; non-trivial = history with '
                 '>= 3 successful mutators' % maxlen)
     exprs, meta = fixed_cases(ctx, {k.name: k for k in kinds})
+    sexprs, smeta = [], []
     reported = set()
     for kind in kinds:
         for h in range(per_kind):
             wild = h % 4 == 3
             length = ctx.rng.randrange(5, maxlen + 1) if (quick or h % 3) else ctx.rng.randrange(5, 41)
             ops = gen_history(kind, ctx.rng, length, wild)
-            trace, failures, upto = C.run_history(kind, ops)
+            trace, failures, upto, ptrace = C.run_history(kind, ops)
+            sexprs.append(kind.coq_spec_check(ops[:len(ptrace)], ptrace)); smeta.append((kind, ops, ptrace))
+            ctx.stats['steps the prototype predicts (well-formed)'] += sum(1 for e in ptrace if e is not None)
+            ctx.stats['steps in the leading all-well-formed prefix'] += next((i for i, e in enumerate(ptrace) if e is None), len(ptrace))
             nmut = sum(1 for op, (out, _) in zip(ops, trace) if not kind.is_reader(op) and out == C.RET)
             ctx.case((kind.name, tuple(map(repr, ops))), nmut >= 3)
             ctx.stats['histories ' + kind.name] += 1
@@ -201,6 +205,11 @@ def run(ctx):
                        'implementation_trace': [op_json(t) for t in trace]})
     for i in bad[8:]:
         ctx.corr_fail('%s: model and implementation disagree on a step' % meta[i][0].name, {'history': [op_json(o) for o in meta[i][1]]})
+    # the Python prototype the implementation was compared with is the Coq specification (on well-formed prefixes)
+    for i in core.coq_bools('c19p', IMPORTS, sexprs, shard=40):
+        kind, ops, ptrace = smeta[i]
+        ctx.corr_fail('%s: the Python prototype and Spec/ListSpec.v disagree on a well-formed step' % kind.name,
+                      {'kind': kind.name, 'history': [op_json(o) for o in ops], 'prototype_trace': [op_json(e) for e in ptrace]})
     scalar_battery(ctx)
 
 
@@ -213,7 +222,7 @@ def replay(data):
     kind = kinds[case['kind']]
 
     ops = [detuple(o) for o in case['history']]
-    trace, failures, upto = C.run_history(kind, ops)
+    trace, failures, upto, _ = C.run_history(kind, ops)
     print('kind', kind.name)
     for op, (out, snap) in zip(ops, trace):
         print('  ', op, '->', out, ' state', snap)
